@@ -63,6 +63,14 @@ func estimateCount(prev uint32, sqn uint8) uint32 {
 // payload lengths: mostly small (uniform ⇒ every residue mod 4/8/16), sometimes up to 600, sometimes around
 // multiples of 16.
 func genPadLen(t *rapid.T, label string) int {
+	if rapid.IntRange(0, 29).Draw(t, label+"_long") == 0 {
+		// long containers (TLV-E / LV-E hold up to 65535 octets): around the powers of two, where keystream
+		// blocks, block counters and two-octet lengths carry
+		if rapid.Bool().Draw(t, label+"_pow") {
+			return (1 << uint(rapid.IntRange(10, 15).Draw(t, label+"_p"))) + rapid.IntRange(-20, 20).Draw(t, label+"_pd")
+		}
+		return rapid.IntRange(601, 40000).Draw(t, label+"_l")
+	}
 	switch rapid.IntRange(0, 9).Draw(t, label+"_kind") {
 	case 0, 1, 2, 3, 4, 5:
 		return rapid.IntRange(0, 48).Draw(t, label)
